@@ -355,7 +355,7 @@ def c14 : List String → String
     | none => "bad-op"
   | ["smudge", cd, wh, skip, objsha, d] =>
     let wh? : Option FP.Where := if wh == "local" then some .local else if wh == "server" then some .server
-      else if wh == "missing" then some .missing else if wh == "failing" then some .failing else if wh == "none" then some .local else none
+      else if wh == "missing" then some .missing else if wh == "failing" then some .failing else if wh == "stale" then some .stale else if wh == "none" then some .local else none
     match wh?, unhex d with
     | some w, some data =>
       let marker : Bytes := objsha.toUTF8.toList
